@@ -94,6 +94,7 @@ pub struct SincFixedIn<T> {
     chunk_size: usize,
     max_chunk_size: usize,
     current_buffer_fill: usize,
+    history_len: usize,
     last_index: f64,
     resample_ratio: f64,
     resample_ratio_original: f64,
@@ -312,7 +313,11 @@ where
         nbr_channels: usize,
     ) -> Result<Self, ResamplerConstructionError> {
         validate_ratios(resample_ratio, max_resample_ratio_relative)?;
-        let buffer = vec![vec![T::zero(); chunk_size + 2 * interpolator.len()]; nbr_channels];
+        // The read position can lag the end of a chunk by more than the longest step,
+        // and the next step may be shorter, so the history must cover the longest step.
+        let history_len =
+            2 * interpolator.len() + (max_resample_ratio_relative / resample_ratio).ceil() as usize;
+        let buffer = vec![vec![T::zero(); chunk_size + history_len]; nbr_channels];
 
         let channel_mask = vec![true; nbr_channels];
 
@@ -321,6 +326,7 @@ where
             chunk_size,
             max_chunk_size: chunk_size,
             current_buffer_fill: chunk_size,
+            history_len,
             last_index: -((interpolator.len() / 2) as f64),
             resample_ratio,
             resample_ratio_original: resample_ratio,
@@ -387,7 +393,7 @@ where
         // Update buffer with new data.
         for buf in self.buffer.iter_mut() {
             buf.copy_within(
-                self.current_buffer_fill..self.current_buffer_fill + 2 * sinc_len,
+                self.current_buffer_fill..self.current_buffer_fill + self.history_len,
                 0,
             );
         }
@@ -396,12 +402,13 @@ where
         for (chan, active) in self.channel_mask.iter().enumerate() {
             if *active {
                 debug_assert!(needed_len <= wave_out[chan].as_mut().len());
-                self.buffer[chan][2 * sinc_len..2 * sinc_len + self.chunk_size]
+                self.buffer[chan][self.history_len..self.history_len + self.chunk_size]
                     .copy_from_slice(&wave_in[chan].as_ref()[..self.chunk_size]);
             }
         }
 
         let mut idx = self.last_index;
+        let history_len = self.history_len as isize;
 
         let mut n = 0;
 
@@ -422,7 +429,7 @@ where
                             for (n, p) in nearest.iter().zip(points.iter_mut()) {
                                 *p = self.interpolator.get_sinc_interpolated(
                                     buf,
-                                    (n.0 + 2 * sinc_len as isize) as usize,
+                                    (n.0 + history_len) as usize,
                                     n.1 as usize,
                                 );
                             }
@@ -448,7 +455,7 @@ where
                             for (n, p) in nearest.iter().zip(points.iter_mut()) {
                                 *p = self.interpolator.get_sinc_interpolated(
                                     buf,
-                                    (n.0 + 2 * sinc_len as isize) as usize,
+                                    (n.0 + history_len) as usize,
                                     n.1 as usize,
                                 );
                             }
@@ -474,7 +481,7 @@ where
                             for (n, p) in nearest.iter().zip(points.iter_mut()) {
                                 *p = self.interpolator.get_sinc_interpolated(
                                     buf,
-                                    (n.0 + 2 * sinc_len as isize) as usize,
+                                    (n.0 + history_len) as usize,
                                     n.1 as usize,
                                 );
                             }
@@ -496,7 +503,7 @@ where
                             let buf = &self.buffer[chan];
                             point = self.interpolator.get_sinc_interpolated(
                                 buf,
-                                (nearest.0 + 2 * sinc_len as isize) as usize,
+                                (nearest.0 + history_len) as usize,
                                 nearest.1 as usize,
                             );
                             wave_out[chan].as_mut()[n] = point;
